@@ -64,6 +64,8 @@ type Run struct {
 	infra  []string
 	kf     kfFile
 	seenNT map[[20]byte]struct{}
+	// firstReq is the first request executed, kept as a fallback sample.
+	firstReq string
 }
 
 // NewRun prepares the scratch directory and loads the known findings.
@@ -242,7 +244,11 @@ func (r *Run) Finish() int {
 		cov[k] = v
 	}
 	if len(r.Samples) == 0 {
-		cov["samples"] = []any{}
+		if r.firstReq != "" {
+			cov["samples"] = []any{map[string]any{"first_case_executed": r.firstReq}}
+		} else {
+			cov["samples"] = []any{}
+		}
 	}
 	ev := map[string]any{
 		"property_id": r.ID, "tier": r.Tier, "seed": r.Seed, "level": r.Level,
